@@ -11,7 +11,13 @@ Variable b0 : bufid.
 
 Definition mstep (s : st) (t : nat) (a : act) : option st := match step s t a with Ok s' => Some s' | _ => None end.
 Definition rstep (s : st) (t : nat) : option st :=
-  match mstep s t ARead with Some s' => Some s' | None => mstep s t AReadM end.
+  match mstep s t ARead with
+  | Some s' => Some s'
+  | None => match mstep s t AReadM with Some s' => Some s' | None => mstep s t AReadB end
+  end.
+(* an increment: through an own handle, else through the borrowed one *)
+Definition istep (s : st) (t : nat) : option st :=
+  match mstep s t AClone with Some s' => Some s' | None => mstep s t ACloneB end.
 
 (* one event of thread t; [p]: which message a load reads; [fresh]: the id the allocator hands out (None = refuses);
    values read from other buffers are [vo] *)
@@ -38,7 +44,7 @@ Definition estep_fun (t : nat) (s : st) (c : cmd unit) (g : ghost) (p : nat) (fr
       if Nat.eqb b b0 then match rstep s t with Some s' => Some (s', k vo, g) | None => None end
       else Some (s, k vo, g)
   | Rmw b true o k =>
-      if Nat.eqb b b0 then match mstep s t AClone with Some s' => Some (s', k (N.of_nat (val (hdm s))), g_inc g b0) | None => None end
+      if Nat.eqb b b0 then match istep s t with Some s' => Some (s', k (N.of_nat (val (hdm s))), g_inc g b0) | None => None end
       else Some (s, k vo, g_inc g b)
   | Rmw b false o k =>
       if Nat.eqb b b0 then
@@ -75,7 +81,9 @@ Lemma rstep_some s t s' : rstep s t = Some s' -> read_step s t s'.
 Proof.
   unfold rstep, read_step. destruct (mstep s t ARead) eqn:E.
   - intros [= <-]. left. apply mstep_some. exact E.
-  - intros E'. right. apply mstep_some. exact E'.
+  - destruct (mstep s t AReadM) eqn:E2.
+    + intros [= <-]. right. left. apply mstep_some. exact E2.
+    + intros E'. right. right. apply mstep_some. exact E'.
 Qed.
 
 Ltac eqb_case b :=
@@ -103,7 +111,9 @@ Proof.
     + destruct (rstep s t) eqn:E; [|discriminate]. intros [= <- <- <-]. constructor. apply rstep_some; auto.
     + intros [= <- <- <-]. constructor; auto.
   - destruct a; eqb_case b.
-    + destruct (mstep s t AClone) eqn:E; [|discriminate]. intros [= <- <- <-]. constructor. apply mstep_some; auto.
+    + unfold istep. destruct (mstep s t AClone) eqn:E.
+      * intros [= <- <- <-]. apply S_inc. apply mstep_some; auto.
+      * destruct (mstep s t ACloneB) eqn:E2; [|discriminate]. intros [= <- <- <-]. apply S_inc_b. apply mstep_some; auto.
     + intros [= <- <- <-]. constructor; auto.
     + destruct (mstep s t ARelease) eqn:E; [|discriminate]. intros [= <- <- <-]. constructor. apply mstep_some; auto.
     + intros [= <- <- <-]. constructor; auto.
@@ -137,19 +147,28 @@ Definition cstep_fun (cf : cfg) (ch : choice) : option cfg :=
   | Ret _ =>
       match rest x with
       | [] => None
-      | POp c :: r => Some {| ms := ms cf; tc := upd (tc cf) t {| cur := c; rest := r; gh := gh x |} |}
+      | POp c :: r => Some {| ms := ms cf; tc := upd (tc cf) t {| cur := c; rest := r; gh := gh x; lt := lt x |} |}
       | PSpawn c k :: r =>
           match mstep (ms cf) t (ASpawn c k) with
-          | Some s' => Some {| ms := s'; tc := upd (tc cf) t {| cur := Ret tt; rest := r; gh := g_give b0 (gh x) k |} |}
+          | Some s' => Some {| ms := s'; tc := upd (tc cf) t {| cur := Ret tt; rest := r; gh := g_give b0 (gh x) k; lt := lt x |} |}
           | None => None end
       | PJoin c :: r =>
           match mstep (ms cf) t (AJoin c) with
-          | Some s' => Some {| ms := s'; tc := upd (tc cf) t {| cur := Ret tt; rest := r; gh := gh x |} |}
+          | Some s' => Some {| ms := s'; tc := upd (tc cf) t {| cur := Ret tt; rest := r; gh := gh x; lt := lt x |} |}
           | None => None end
+      | PLend c :: r =>
+          match mstep (ms cf) t (ALend c) with
+          | Some s' => Some {| ms := s'; tc := upd (tc cf) t {| cur := Ret tt; rest := r; gh := g_lendout b0 (gh x); lt := c :: lt x |} |}
+          | None => None end
+      | PJoinB c :: r =>
+          match cur (gettc b0 cf c), rest (gettc b0 cf c), mstep (ms cf) t (AJoinB c) with
+          | Ret tt, [], Some s' =>
+              Some {| ms := s'; tc := upd (tc cf) t {| cur := Ret tt; rest := r; gh := gh x; lt := List.remove Nat.eq_dec c (lt x) |} |}
+          | _, _, _ => None end
       end
   | c =>
       match estep_fun t (ms cf) c (gh x) (probe ch) (fresh_id ch) 2%N with
-      | Some (s', c', g') => Some {| ms := s'; tc := upd (tc cf) t {| cur := c'; rest := rest x; gh := g' |} |}
+      | Some (s', c', g') => Some {| ms := s'; tc := upd (tc cf) t {| cur := c'; rest := rest x; gh := g'; lt := lt x |} |}
       | None => None
       end
   end.
@@ -160,15 +179,20 @@ Proof.
   destruct (started (getth (ms cf) (who ch))) eqn:Hst; cbn [negb]; [|discriminate].
   assert (Hev : forall c, cur (gettc b0 cf (who ch)) = c ->
      match estep_fun (who ch) (ms cf) c (gh (gettc b0 cf (who ch))) (probe ch) (fresh_id ch) 2%N with
-     | Some (s', c', g') => Some {| ms := s'; tc := upd (tc cf) (who ch) {| cur := c'; rest := rest (gettc b0 cf (who ch)); gh := g' |} |}
+     | Some (s', c', g') => Some {| ms := s'; tc := upd (tc cf) (who ch) {| cur := c'; rest := rest (gettc b0 cf (who ch)); gh := g'; lt := lt (gettc b0 cf (who ch)) |} |}
      | None => None end = Some cf' -> cstep b0 cf cf').
   { intros c Ec. destruct (estep_fun _ _ _ _ _ _ _) as [[[s' c'] g']|] eqn:E; [|discriminate]. intros [= <-].
     apply C_event; auto. rewrite Ec. apply estep_fun_sound in E. exact E. }
   destruct (cur (gettc b0 cf (who ch))) as [[]| | | | | | | | | | | | ] eqn:Ec; try (apply Hev; reflexivity).
-  destruct (rest (gettc b0 cf (who ch))) as [|[c|c k|c] r] eqn:Er; [discriminate| | |].
+  destruct (rest (gettc b0 cf (who ch))) as [|[c|c k|c|c|c] r] eqn:Er; [discriminate| | | | |].
   - intros [= <-]. eapply C_next; eauto.
   - destruct (mstep _ _ _) as [s0|] eqn:E; [|discriminate]. intros [= <-]. apply (C_spawn b0 cf (who ch) c k r s0); auto. apply mstep_some; auto.
   - destruct (mstep _ _ _) as [s0|] eqn:E; [|discriminate]. intros [= <-]. apply (C_join b0 cf (who ch) c r s0); auto. apply mstep_some; auto.
+  - destruct (mstep _ _ _) as [s0|] eqn:E; [|discriminate]. intros [= <-]. apply (C_lend b0 cf (who ch) c r s0); auto. apply mstep_some; auto.
+  - destruct (cur (gettc b0 cf c)) as [[]| | | | | | | | | | | | ] eqn:Ecc; try discriminate.
+    destruct (rest (gettc b0 cf c)) eqn:Erc; [|discriminate].
+    destruct (mstep _ _ _) as [s0|] eqn:E; [|discriminate]. intros [= <-].
+    apply (C_joinb b0 cf (who ch) c r s0); auto; [split; assumption|apply mstep_some; auto].
 Qed.
 
 (* a schedule: decisions that are not enabled are skipped *)
